@@ -310,10 +310,30 @@ func (cx *Ctx) finish() {
 	}
 	rs.cases++
 	rs.steps += cx.steps
+	var unknown *Failure
+	nunknown := 0
+	for i := range cx.failures {
+		f := &cx.failures[i]
+		matched := false
+		for j := range rs.known {
+			if rs.known[j].matches(f) {
+				rs.knownHit[rs.known[j].What]++
+				matched = true
+				break
+			}
+		}
+		if !matched {
+			nunknown++
+			if unknown == nil {
+				unknown = f
+			}
+		}
+	}
 	if rs.evlog != nil {
+		// (failures matching a known finding are not part of the log: some of them depend on Go's map order)
 		h := fnv.New64a()
 		h.Write(cx.key)
-		fmt.Fprintf(rs.evlog, "case %d key=%016x nontrivial=%v fails=%d\n", rs.cases, h.Sum64(), cx.nontrivial, len(cx.failures))
+		fmt.Fprintf(rs.evlog, "case %d key=%016x nontrivial=%v unlisted_failures=%d\n", rs.cases, h.Sum64(), cx.nontrivial, nunknown)
 		for _, e := range cx.events {
 			rs.evlog.WriteString(e)
 			rs.evlog.WriteByte('\n')
@@ -327,21 +347,6 @@ func (cx *Ctx) finish() {
 		rs.bitmap[v/64] |= 1 << (v % 64)
 		if len(rs.samples) < 4 && cx.render != nil && (rs.nontrivial == 1 || rs.nontrivial == 10 || rs.nontrivial == 100 || rs.nontrivial == 1000) {
 			rs.samples = append(rs.samples, cx.render())
-		}
-	}
-	var unknown *Failure
-	for i := range cx.failures {
-		f := &cx.failures[i]
-		matched := false
-		for j := range rs.known {
-			if rs.known[j].matches(f) {
-				rs.knownHit[rs.known[j].What]++
-				matched = true
-				break
-			}
-		}
-		if !matched && unknown == nil {
-			unknown = f
 		}
 	}
 	if unknown != nil && rs.survey != nil {
